@@ -92,7 +92,22 @@ def _diamond(eps):
             "q0": "s", "F": ["f", "g"], "eps": eps}
 
 
-TEMPLATES = [_anbn, _pal, _nonempty_stack, _replace, _diamond]
+def _replace_only(eps):
+    # the symbol Y reaches the stack only through a replace move and is popped later: a^n b b (n >= 1)
+    return {"Q": ["q0", "q1", "q2"], "S": ["a", "b"], "G": ["X", "Y"],
+            "d": [["q0", "a", eps, "q0", "X"], ["q0", "b", "X", "q1", "Y"], ["q1", "b", "Y", "q2", eps]],
+            "q0": "q0", "F": ["q2"], "eps": eps}
+
+
+def _counter_and_sink(eps):
+    # one branch counts the a's on the stack, another one keeps the stack empty; acceptance after b through an eps push
+    return {"Q": ["s", "p", "k", "g", "f"], "S": ["a", "b"], "G": ["A", "B"],
+            "d": [["s", eps, eps, "p", eps], ["s", eps, eps, "k", eps], ["p", "a", eps, "p", "A"], ["k", "a", eps, "k", eps], ["k", "b", eps, "k", eps], ["p", "b", eps, "g", eps],
+                  ["g", eps, eps, "f", "B"]],
+            "q0": "s", "F": ["f"], "eps": eps}
+
+
+TEMPLATES = [_anbn, _pal, _nonempty_stack, _replace, _diamond, _replace_only, _counter_and_sink]
 
 
 @st.composite
